@@ -212,6 +212,7 @@ func runProperty(pr *Property, tier, repo, verif string, seed int, explain bool)
 	}
 
 	var controls []controlResult
+	var negatives []negativeResult
 	if tier == "thorough" && err == nil {
 		p = nil // let the big program be collected before sub-processes run
 		extra, cfgs := thoroughConfigs(pr, repo)
@@ -220,6 +221,7 @@ func runProperty(pr *Property, tier, repo, verif string, seed int, explain bool)
 		var cobl []Obligation
 		controls, cobl = runControls(pr, repo, verif)
 		obls = append(obls, cobl...)
+		negatives = runNegativeControls(pr, repo, verif)
 	}
 
 	// ---- reconcile with known findings ----------------------------------
@@ -339,6 +341,27 @@ func runProperty(pr *Property, tier, repo, verif string, seed int, explain bool)
 	}
 	if len(controls) > 0 {
 		cov["positive_controls"] = controls
+	}
+	if len(negatives) > 0 {
+		silent, alarmed, skipped := 0, 0, 0
+		for _, n := range negatives {
+			switch n.Status {
+			case "silent":
+				silent++
+			case "alarm":
+				alarmed++
+				fmt.Printf("  negative control %s: the property's rules report %d thing(s) on a behaviour-preserving refactoring (a defect of the checker, not of the repository): %s\n", n.Name, len(n.Alarms), strings.Join(n.Alarms, "; "))
+			default:
+				skipped++
+			}
+		}
+		cov["negative_controls"] = map[string]interface{}{
+			"what":    "behaviour-preserving refactorings under /verif/benign applied to a scratch copy: the property's rules must report nothing new",
+			"silent":  silent,
+			"alarmed": alarmed,
+			"skipped": skipped,
+			"results": negatives,
+		}
 	}
 	if pr.Level == "proof" {
 		cov["checker_cmd"] = "./run.sh " + pr.ID + " " + tier
